@@ -190,11 +190,11 @@ def search_ext():
         one = [p % b for p in XPROJ]
         chains += one
         for c in one:
-            chains += [p % c for p in XPROJ[:3] + XPROJ[-1:]]
+            chains += [p % c for p in XPROJ[:1] + XPROJ[-1:]]
     reqs = []
     for c in chains:
-        for body in ("(expr %s)" % c, "(expr (bin Assignment %s (lit IntLiteral)))" % c, "(expr (bin SumAssignment %s (lit IntLiteral)))" % c,
-                     "(expr (un PrefixIncrement %s))" % c, "(expr (call 2 %s))" % c, "(expr (call 3 %s))" % c,
+        for body in ("(expr %s)" % c, "(expr (bin Assignment %s (lit IntLiteral)))" % c,
+                     "(expr (un PrefixIncrement %s))" % c, "(expr (call 2 %s))" % c,
                      "(expr (icall sincos (var 0) %s (var 0)))" % c):
             reqs.append("C03.progx\t%s\tvoid\t(block %s)\tany" % (env, body))
     for t in ("-/s.Float32", "-/v.Float32.3", "-/m.Float32.2.2", "-/o.0"):
